@@ -26,14 +26,34 @@ _Random = _random.Random
 _METHODS = ['seed', 'random', 'randint', 'randrange', 'choice', 'sample', 'shuffle', 'getrandbits', 'uniform', 'choices']
 
 
+POST_STREAMS = {'zeros': lambda i: 0, 'big': lambda i: 10 ** 6 - 1, 'alt': lambda i: (i // 3) % 2, 'count': lambda i: i // 2,
+                'mix': lambda i: (i * 7 + 3) % 5}
+
+
+class StreamRandom(FakeRandom):
+    """a seeded generator other than the Mersenne Twister: the draws after seed(x) are SOME deterministic stream (the
+    contract of `random` promises no more); repeated and slowly varying draws reach the rejection/fallback code paths"""
+    def __init__(self, name):
+        FakeRandom.__init__(self, Tape(concrete=POST_STREAMS[name], limit=20000), floats=(0.0, 0.3, 0.9))
+
+    def uniform(self, a, b):
+        return a + (b - a) * self.random()
+
+    def choices(self, population, weights=None, cum_weights=None, k=1):
+        return [self.choice(population) for _ in range(k)]
+
+
 class TwoPhaseRandom(FakeRandom):
-    def __init__(self, tape):
+    def __init__(self, tape, post=None):
         FakeRandom.__init__(self, tape, floats=(0.0, 0.3, 0.9))
         self.real = None
+        self.post = post
 
     def seed(self, x=None):
         if x is None:
             self.real = None
+        elif self.post is not None:
+            self.real = StreamRandom(self.post)
         else:
             self.real = _Random(x)
 
@@ -77,9 +97,9 @@ class TwoPhaseRandom(FakeRandom):
 
 
 @contextlib.contextmanager
-def environment(tape):
+def environment(tape, post=None):
     import cnfgen.graphs as G
-    fake = TwoPhaseRandom(tape)
+    fake = TwoPhaseRandom(tape, post)
     saved = {m: getattr(_random, m) for m in _METHODS}
     saved_inst = _random._inst
     for m in _METHODS:
@@ -184,6 +204,20 @@ COMMANDS = [
 ]
 
 
+# command lines reading graph files whose vertices have NAMES (dot, gml labels): used by the process sweep over
+# PYTHONHASHSEED only (vertex numbering must come from the file, never from the iteration order of a set of strings)
+NAMED_COMMANDS = [
+    ('cnfgen', ['php', _os.path.join(DATA, 'b2.dot')]),
+    ('cnfgen', ['subsetcard', _os.path.join(DATA, 'b2.dot')]),
+    ('cnfgen', ['kcolor', 3, _os.path.join(DATA, 'g2.dot')]),
+    ('cnfgen', ['tseitin', 'first', _os.path.join(DATA, 'g2.dot')]),
+    ('cnfgen', ['domset', 2, _os.path.join(DATA, 'g3.gml')]),
+    ('cnfgen', ['peb', _os.path.join(DATA, 'd3.dot')]),
+    ('pbgen', ['php', _os.path.join(DATA, 'b2.dot')]),
+    ('cnfgen', ['and', 3, 2, '-T', 'xorcomp', _os.path.join(DATA, 'b2.dot')]),
+]
+
+
 def _same_output(ci, si, tape):
     tool, argv = COMMANDS[ci]
     seed = SEEDS[si]
@@ -241,6 +275,42 @@ def _lib(li, seed, tape):
                 B = G.bipartite_random_m_edges(3, 3, 7, seed=seed)
             return sorted(B.edges())
     return once() == once()
+
+
+STREAM_NAMES = ['zeros', 'big', 'alt', 'count', 'mix']
+DENSE = [('cnf', 2, 3, 12), ('cnf', 1, 3, 6), ('cnf', 2, 3, 11), ('cnf', 3, 3, 8), ('xor', 2, 4, 12), ('xor', 1, 3, 6), ('xor', 2, 3, 6),
+         ('cnf', 2, 4, 20), ('xor', 3, 4, 7)]
+
+
+def _lib_stream(di, st, tape):
+    """requests at or near the number of available clauses (the rejection phase gives up, the dense fallback runs), under a
+    seeded generator that repeats itself: the second call with the same seed gives the same formula"""
+    from cnfgen.families.randomformulas import RandomKCNF
+    from cnfgen.families.randomkxor import RandomKXOR
+    kind, k, n, m = DENSE[di]
+
+    def once(seed):
+        with environment(tape, post=STREAM_NAMES[st]):
+            F = (RandomKCNF if kind == 'cnf' else RandomKXOR)(k, n, m, seed=seed)
+            return [list(c) for c in F.clauses()]
+    a = once(5)
+    once(6)
+    return a == once(5)
+
+
+def h_e_lib_stream(di: int, st: int) -> bool:
+    """
+    pre: 0 <= di <= 8 and 0 <= st <= 4
+    post: _
+    """
+    tape = Tape(limit=40)
+    try:
+        ok = untraced(_lib_stream, pick(di, 0, 8), pick(st, 0, 4), tape)
+    except TapeExhausted:
+        return True
+    if not ok:
+        raise AssertionError('library generator %r called again with the same seed differs TAPE=%r' % (DENSE[di], tape.log))
+    return True
 
 
 def h_e_lib(li: int, si: int) -> bool:
